@@ -9,6 +9,7 @@ scenarios.
 from __future__ import annotations
 
 import ast
+from ..core import utext
 import itertools
 
 from ..core import AnalysisError, DefUse, Program, call_name, norm
@@ -125,7 +126,7 @@ def role_filter(prog, res, K, meth, keep: set) -> None:
                     f"{'kept' if added else 'dropped'}, but {meth}() must "
                     f"{'keep' if want else 'drop'} it", instance=inst)
     # the reaction attribute itself must not leak into the result
-    txt = ast.unparse(loop)
+    txt = utext(loop)
     inst = f"{fi.short}: 'reaction' attribute stripped from kept bonds"
     if "pop('reaction'" in txt or "'reaction'" not in txt.replace(
             ".get('reaction'", ""):
@@ -290,7 +291,7 @@ def check_overlays(prog: Program, res: Result) -> None:
                         fi.loc(), f"{inst}: no loop over self.{slot}",
                         instance=inst)
                 continue
-            t = ast.unparse(loops[0])
+            t = utext(loops[0])
             used = {r for r in ("FORMED", "BROKEN", "FLEETING")
                     if f"Change.{r}" in t}
             kind = "atom" if "atom" in slot else "bond"
@@ -304,7 +305,7 @@ def check_overlays(prog: Program, res: Result) -> None:
                         f"{sorted(used)} / writes descriptor: {writes}",
                         instance=inst)
         # static stereo is the base layer
-        t = ast.unparse(fi.node)
+        t = utext(fi.node)
         inst = f"SCRG.{meth}: static descriptors are the base layer"
         if "deepcopy(self._atom_stereo)" in t and "deepcopy(self._bond_stereo)" in t:
             res.ok("R-ROLE-TABLE", inst, fi.loc())
@@ -334,7 +335,7 @@ def check_overlays(prog: Program, res: Result) -> None:
         res.bad("R-ROLE-TABLE", f"{rv.short}: change dictionaries",
                 rv.loc(), "SCRG.reverse_reaction does not rebuild both the "
                 f"atom and the bond change dictionaries (found {n})")
-    t = ast.unparse(rv.node)
+    t = utext(rv.node)
     handled = {kind: (f"_{kind}_stereo_change" in t
                       and f"set_{kind}_stereo_change(" in t)
                for kind in ("atom", "bond")}
